@@ -425,6 +425,30 @@ def take_rule(ctx):
         ctx.ob('TAKE', 'ReaderRead::into_left_after_take', ok, short_loc(b.span), 'Ok only when limit() == 0 (nothing left in the block): %s' % ok)
     else:
         ctx.ob('TAKE', 'ReaderRead::into_left_after_take', False, None, 'anchor not found')
+    # the allocation cap is the caller's configuration: it goes into the block reader and comes back out of it as it is (a
+    # cap tightened per block - `max_alloc_size.min(block_size)` - and copied back shrinks for good to the smallest block
+    # seen, and then refuses values that the slice path and an unblocked reader accept)
+    RR = 'de::read::ReaderRead'
+    adt = f.adts.get(RR) or {}
+    names = [fd.get('name') for v in adt.get('variants', [])[:1] for fd in v.get('fields', [])]
+    for lbl in ('<de::read::ReaderRead as de::read::take::Take>::take', '<de::read::ReaderRead as de::read::take::IntoLeftAfterTake>::into_left_after_take'):
+        b = fn_by_label(f, lbl)
+        if b is None or 'max_alloc_size' not in names:
+            continue
+        i = names.index('max_alloc_size')
+        n_, bad = 0, []
+        for x in [b] + f.closures_of(b):
+            for bb in x.live_blocks():
+                if x.is_cleanup(bb):
+                    continue
+                for s_ in x.stmts(bb):
+                    if 'assign' in s_ and s_['rv']['k'] == 'agg' and (s_['rv'].get('adt') or '') == RR and len(s_['rv']['ops']) == len(names):
+                        n_ += 1
+                        o = origin(x, s_['rv']['ops'][i])
+                        if not ('max_alloc_size' in o.fields and not o.has_arith() and not o.call_names() and not o.consts()):
+                            bad.append(o.describe()[:120])
+        ctx.ob('TAKE', '%s/cap-carried-unchanged' % lbl.split('>::')[-1], n_ >= 1 and not bad, short_loc(b.span),
+               '%d ReaderRead value(s) built; max_alloc_size is the incoming one, untouched: %s' % (n_, bad or 'yes'))
 
 
 def header_rule(ctx):
